@@ -519,6 +519,7 @@ pub fn c08_matrix(full: bool) -> Vec<Script> {
             p.push((0, "MODE #c +itk x".into()));
             p.push((0, "MODE #c +b m".into()));
             p.push((0, "MODE #c +e m".into()));
+            p.push((0, "MODE #c +I m".into()));
             p.push((0, "MODE #c +l 5".into()));
             out.push(Script { cfg: oper_cfg(), users: users(), prelude: p, slot: 1, line: l.to_string() });
             out.push(Script { cfg: oper_cfg(), users: users(), prelude: base(&none), slot: 1, line: l.to_string() });
